@@ -211,6 +211,15 @@ class Mon:
         # after every server step: the manager's own figure
         if self.manager is not None:
             self.check_free(self.manager.free_space, "Manager.free_space")
+            if self.jobs_alive == 0:
+                # ... and, at rest, the store's own idea of what is resident: every dataset it considers to be in shared memory
+                # (being written, readable, being paged out or in) is covered by the space it has deducted
+                DS = self.dataset.DatasetStatus
+                by_status = sum(d.size for d in list(self.manager.datasets.values()) if d.status != DS.on_disk)
+                if by_status + self.manager.free_space > self.cap:
+                    self.v("C08", "resident_datasets_exceed_deducted_space", (by_status, self.manager.free_space, self.cap,
+                                                                             {k: d.status.name for k, d in list(self.manager.datasets.items())}),
+                           failed_pagein_without_segment=self.K.probes.get("pagein_left_no_segment", 0) > 0, enomem=self.K.fired.get("shm_enomem", 0) > 0)
 
     def check_free(self, reported, where):
         fm = self.free_model()
